@@ -6,11 +6,13 @@ package drive
 
 import (
 	"bufio"
+	"bytes"
 	"encoding/json"
 	"errors"
 	"fmt"
 	"io"
 	"os"
+	"path/filepath"
 	"runtime/debug"
 	"sort"
 	"strings"
@@ -87,6 +89,12 @@ type Job struct {
 	// no longer fit the I/O the current tree performs it is skipped, not an error.
 	Soft bool `json:"soft,omitempty"`
 	Tag  string `json:"tag,omitempty"`
+	// Real: run on the production fs.FS + metadb.BoltMetaDB in a scratch directory.
+	Real bool `json:"real,omitempty"`
+	// SnapshotEach (real mode): after every step copy the directory (the image a process
+	// kill would leave: bolt between transactions) and fork: Open the copy, probe, read Keys.
+	SnapshotEach bool  `json:"snapshotEach,omitempty"`
+	Keys         []int `json:"keys,omitempty"`
 }
 
 // Out bundles the output streams.
@@ -137,6 +145,7 @@ type run struct {
 	dead         bool // open failed / panic: no further steps
 	forkNode     *Fork
 	lastMark     int
+	dir          string // real mode: the directory
 	// index window ever used on this execution path (inherited by forks)
 	minIdx, maxIdx uint64
 }
@@ -156,7 +165,7 @@ func (r *run) noteIdx(i uint64) {
 }
 
 func (r *run) mark() int {
-	if len(r.forks()) == 0 {
+	if len(r.forks()) == 0 && !r.job.SnapshotEach {
 		return -1 // nobody will restore to a mark of this run
 	}
 	id := r.sh.nextMark
@@ -171,7 +180,16 @@ func (r *run) open() bool {
 	var w *wal.WAL
 	var err error
 	lg := hclog.NewNullLogger()
-	if r.job.Codec == "bin" {
+	if r.job.Real {
+		opts := []func(*wal.WAL){}
+		_ = opts
+		if r.job.Codec == "bin" {
+			w, err = wal.Open(r.dir, wal.WithSegmentSize(r.job.SegSize), wal.WithLogger(lg), wal.WithMetricsCollector(r.mc))
+		} else {
+			w, err = wal.Open(r.dir, wal.WithSegmentSize(r.job.SegSize), wal.WithLogger(lg), wal.WithMetricsCollector(r.mc),
+				wal.WithCodec(valpool.IdentCodec{}))
+		}
+	} else if r.job.Codec == "bin" {
 		w, err = wal.Open("/sim", wal.WithSegmentFiler(sf), wal.WithMetaStore(r.meta),
 			wal.WithSegmentSize(r.job.SegSize), wal.WithLogger(lg), wal.WithMetricsCollector(r.mc))
 	} else {
@@ -180,14 +198,19 @@ func (r *run) open() bool {
 			wal.WithCodec(valpool.IdentCodec{}))
 	}
 	if err != nil {
+		if !r.job.Real {
+			r.reportCreates() // a Create that collided with an existing file is a C13 matter
+		}
 		r.out.obs(map[string]any{"ev": "open", "res": "err", "msg": err.Error()})
 		r.dead = true
 		return false
 	}
 	r.w = w
 	r.out.obs(map[string]any{"ev": "open", "res": "ok"})
-	r.reportCreates()
-	r.reportDir("open")
+	if !r.job.Real {
+		r.reportCreates()
+		r.reportDir("open")
+	}
 	return true
 }
 
@@ -314,7 +337,10 @@ func (r *run) get(i uint64) {
 	if err == nil {
 		cid = r.pool.Identify(i, &lg)
 	}
-	m := map[string]any{"ev": "get", "idx": i, "res": errClass(err), "cid": cid}
+	m := map[string]any{"ev": "get", "idx": i, "res": errClass(err), "cid": cid, "nbytes": 0}
+	if err == nil {
+		m["nbytes"] = r.encodedLen(&lg)
+	}
 	if err != nil && errClass(err) == "err" {
 		m["msg"] = err.Error()
 	}
@@ -408,8 +434,12 @@ func (r *run) doStep(s Step) {
 					r.sh.nextCid = c + 1
 				}
 			}
+			nb := 0
+			for _, lg := range logs {
+				nb += r.encodedLen(lg)
+			}
 			err := r.w.StoreLogs(logs)
-			ev = map[string]any{"ev": "store", "idxs": idxs, "cids": s.Cids, "res": errClass(err)}
+			ev = map[string]any{"ev": "store", "idxs": idxs, "cids": s.Cids, "res": errClass(err), "nbytes": nb}
 			if err != nil {
 				ev["msg"] = err.Error()
 			}
@@ -426,7 +456,11 @@ func (r *run) doStep(s Step) {
 			} else {
 				err = r.w.Set(keyBytes(s.Key), valBytes(s.Val))
 			}
-			ev = map[string]any{"ev": "set", "key": s.Key, "val": s.Val, "u64": s.U64, "res": errClass(err)}
+			cv := s.Val
+			if !s.U64 && cv == 1 {
+				cv = 0 // an empty value reads back like nil (the property allows nil/empty)
+			}
+			ev = map[string]any{"ev": "set", "key": s.Key, "val": cv, "u64": s.U64, "res": errClass(err)}
 		case "getk":
 			if s.U64 {
 				v, err := r.w.GetUint64(keyBytes(s.Key))
@@ -469,10 +503,15 @@ func (r *run) doStep(s Step) {
 	r.steps = append(r.steps, si)
 	if s.Op == "store" || s.Op == "delete" {
 		r.quiesce()
-		r.reportCreates()
+		if !r.job.Real {
+			r.reportCreates()
+		}
 	}
-	if s.Op == "delete" {
+	if s.Op == "delete" && !r.job.Real {
 		r.reportDir("delete")
+	}
+	if r.job.SnapshotEach && r.job.Real && !r.dead && r.forkNode == nil && s.Op != "probe" && s.Op != "getk" {
+		r.snapshotFork()
 	}
 	if r.job.Metrics && r.w != nil {
 		r.reportMetrics()
@@ -506,6 +545,9 @@ func isMut(e *sim.Ev) bool {
 // and files); the metadata store object is re-created from its current content
 // like a re-opened BoltDB would be.
 func (r *run) reopenWorld() {
+	if r.job.Real {
+		return
+	}
 	st, stable := r.meta.Current()
 	im := &sim.Image{Meta: st, HasMeta: true, Stable: stable}
 	r.meta = sim.NewMeta(r.rec, im)
@@ -515,9 +557,30 @@ func (r *run) reportMetrics() {
 	s := r.mc.Summary()
 	m := map[string]any{"ev": "metrics"}
 	for k, v := range s.Counters {
+		if v > 1<<30 {
+			v = 1 << 30 // TLC integers are 32 bit; a wrapped counter is wrong anyway
+		}
 		m[k] = v
 	}
+	// ground truth for rotations: metadata commits issued by the background rotation goroutine
+	rot := 0
+	for _, e := range r.rec.Snapshot() {
+		if e.BG && e.Call == "mcommit" && e.Res == "ok" {
+			rot++
+		}
+	}
+	m["bg_rotations"] = rot
 	r.out.obs(m)
+}
+
+// encodedLen is the size of the entry after encoding with the job's codec.
+func (r *run) encodedLen(l *raft.Log) int {
+	if r.job.Codec != "bin" {
+		return len(l.Data)
+	}
+	var buf bytes.Buffer
+	(&wal.BinaryCodec{}).Encode(l, &buf)
+	return buf.Len()
 }
 
 func keyBytes(k int) []byte { return []byte(fmt.Sprintf("key-%d", k)) }
@@ -555,7 +618,58 @@ func newRun(job *Job, out *Out, sh *shared, path string, init *sim.Image) *run {
 	r.meta = sim.NewMeta(r.rec, init)
 	r.pool = valpool.New(job.Seed, job.Codec == "bin")
 	r.mc = metrics.NewAtomicCollector(wal.MetricDefinitions)
+	if job.Real {
+		r.rec.Gate = false
+		d, err := os.MkdirTemp("", "verif-real-")
+		if err != nil {
+			panic(err)
+		}
+		r.dir = d
+	}
 	return r
+}
+
+// snapshotFork (real mode): copy the directory as it is now - what a kill of the
+// process would leave - open the copy and check it against the judge's state.
+func (r *run) snapshotFork() {
+	m := r.mark()
+	cp, err := os.MkdirTemp("", "verif-snap-")
+	if err != nil {
+		panic(err)
+	}
+	defer os.RemoveAll(cp)
+	ents, _ := os.ReadDir(r.dir)
+	for _, e := range ents {
+		b, err := os.ReadFile(filepath.Join(r.dir, e.Name()))
+		if err == nil {
+			os.WriteFile(filepath.Join(cp, e.Name()), b, 0644)
+		}
+	}
+	r.out.Forks++
+	r.out.obs(map[string]any{"ev": "restore", "id": m})
+	r.out.obs(map[string]any{"ev": "crash", "fork": fmt.Sprintf("%s/s%d", r.path, m), "at": -1, "op": map[string]any{"ev": "none"},
+		"hash": fmt.Sprintf("snap-%s-%d", r.path, m), "trivial": false, "dirty": 0, "kept": 0})
+	c := &run{job: r.job, out: r.out, sh: r.sh, path: fmt.Sprintf("%s/s%d", r.path, m), init: sim.EmptyImage()}
+	c.rec = sim.NewRecorder()
+	c.fs = sim.NewFS(c.rec, c.init)
+	c.meta = sim.NewMeta(c.rec, c.init)
+	c.pool = r.pool
+	c.mc = metrics.NewAtomicCollector(wal.MetricDefinitions)
+	c.dir = cp
+	c.forkNode = &Fork{}
+	c.minIdx, c.maxIdx = r.minIdx, r.maxIdx
+	if c.open() {
+		c.probe()
+		for _, k := range r.job.Keys {
+			c.doStep(Step{Op: "getk", Key: k})
+		}
+		func() {
+			defer c.guard("close")
+			c.w.Close()
+		}()
+	}
+	// back to the live run
+	r.out.obs(map[string]any{"ev": "restore", "id": m})
 }
 
 // RunJob executes a job and its fork tree.
@@ -585,19 +699,44 @@ func RunJob(job *Job, out *Out) {
 	}
 	if job.Family == "fault" {
 		r.rec.ClearFaults()
+		r.rec.Mark("cleared", "", "")
 		r.out.obs(map[string]any{"ev": "faults_cleared"})
+		if r.w != nil && !r.dead {
+			r.probe()
+			for _, s := range job.Cont {
+				r.doStep(s)
+			}
+		}
+		// clean restart of the process: the old WAL object is abandoned if it is unusable
+		if r.w != nil && !r.dead {
+			r.doStep(Step{Op: "reopen"})
+		} else {
+			if r.w != nil {
+				func() {
+					defer func() { recover() }()
+					r.w.Close()
+				}()
+				r.w = nil
+			}
+			r.dead = false
+			r.doStep(Step{Op: "open"})
+		}
 		r.probe()
 		for _, s := range job.Cont {
 			r.doStep(s)
 		}
-		if r.w != nil && !r.dead {
-			r.doStep(Step{Op: "reopen"})
-		} else if !r.dead {
-			r.doStep(Step{Op: "open"})
-		}
 		r.probe()
 	}
 	r.finish(pool)
+	if r.job.Real {
+		if r.w != nil {
+			func() {
+				defer r.guard("close")
+				r.w.Close()
+			}()
+		}
+		os.RemoveAll(r.dir)
+	}
 }
 
 // finish writes the I/O trace (if requested) and runs the forks of this run.
